@@ -47,7 +47,8 @@ def gen_project(rng, p_after=0.35):
             nid += 1
             tasks.append(tk(tid, pdeps=[rng.choice(pats)], deps=[102] if rng.random() < 0.3 else [], prods=[nid]))
         elif kind == "gen":
-            p = rng.choice(pats)
+            # (pattern 9: files placed by the user, nobody produces them - the generator is ready from the start)
+            p = rng.choice(pats + [9])
             g = tk(tid, pdeps=[p], is_gen=True, two_stage=rng.random() < 0.5)
             tasks.append(g)
             if rng.random() < 0.5:
@@ -59,6 +60,14 @@ def gen_project(rng, p_after=0.35):
                 nid += 1
                 gen_prods = [30000 + 100 * p + j for j in rng.sample([0, 1, 2], rng.randint(1, 2))]
                 tasks.append(tk(tid, deps=[g["prods"][0]] + sorted(gen_prods), prods=[nid]))
+            elif rng.random() < 0.6:
+                # a declared task that reads only what generated tasks write: ready from the start as far as the
+                # declared graph knows, it has to wait once the generator has created its producers (try_last keeps
+                # it behind the generator)
+                tid += 1
+                nid += 1
+                gen_prods = [30000 + 100 * p + j for j in rng.sample([0, 1, 2], rng.randint(1, 2))]
+                tasks.append(tk(tid, deps=sorted(gen_prods), prods=[nid], prio=-1))
         else:
             nid += 1
             tasks.append(tk(tid, deps=[rng.choice(sources)], prods=[nid]))
@@ -144,7 +153,7 @@ def gen_history(rng, idx, base, p_expr=0.12):
 
 def ptask_term(t, V, name=None):
     ae = Some([ord(c) for c in t["after_expr"]]) if t.get("after_expr") else Raw("None")
-    base = C("mkTask", t["id"], V, t["deps"], t["prods"], [], ae, bool(t["skip"]), [], bool(t["persist"]), Zi(0),
+    base = C("mkTask", t["id"], V, t["deps"], t["prods"], [], ae, bool(t["skip"]), [], bool(t["persist"]), Zi(t.get("prio", 0)),
              [[ord(c) for c in name]] if name else [], [[2]] if t.get("two_stage") else [])
     return C("mkPT", base, t["pdeps"], t["pprods"], bool(t["is_gen"]), bool(t["clears"]))
 
@@ -310,6 +319,25 @@ def o_order(cimp, ctx):
             if u != x and writes.get(u, set()) & reads.get(x, set()):
                 if pos.get(2 * u + 1, 10 ** 9) > pos[2 * x]:
                     probs.append((f"task {x} started before task {u}, whose product it reads, had finished", ()))
+    # the order in which tasks are handled (reported), whether or not their functions start: once a generator has
+    # been handled the tasks it created are part of the graph, and a task reading what one of them writes is
+    # handled after it
+    order = [t for t, _ in cimp["reports"]]
+    tasks = ctx["op"]["tasks"]
+    reads, writes = reads_writes(tasks, set(order))
+    gens_of = {}
+    for g in tasks:
+        if g["is_gen"]:
+            for p in g["pdeps"]:
+                gens_of.setdefault(p, []).append(g["id"])
+    for xi, x in enumerate(order):
+        for u in order[xi + 1:]:
+            if not (20000 <= u < 30000 or 40000 <= u < 50000) or not (writes.get(u, set()) & reads.get(x, set())):
+                continue
+            p = (u % 20000) // 100
+            made_before = [g for g in gens_of.get(p, []) if g in order[:xi]]
+            if made_before and x not in made_before:
+                probs.append((f"task {x} was handled before generated task {u}, whose product it reads, although generator {made_before[0]} had already created it", ()))
     return probs
 
 
